@@ -1,5 +1,5 @@
 """Which bundles / engines decide which property (the fixed properties are in /verif/properties.jsonl)."""
-from . import attack, hashl, evaluation, draw, rules, targets, succ, castle
+from . import attack, hashl, evaluation, draw, rules, targets, succ, castle, top
 
 WL_ATTACK = ['external_body:axiom_i8_add_assign_ref', 'assume_specification:i8::abs']
 TB_COMMON = [
@@ -30,7 +30,7 @@ def b_draw(g):
 
 
 def b_targets(g):
-    attack.build(g); hashl.build(g); rules.build(g); targets.build(g); succ.build(g); castle.build(g)
+    attack.build(g); hashl.build(g); rules.build(g); targets.build(g); succ.build(g); castle.build(g); top.build(g)
 
 
 WL_MOVEGEN = WL_ATTACK + ['external_body:axiom_boardstate_clone']
